@@ -263,6 +263,8 @@ def amen_solve(A, b, nswp=22, x0=None, eps=1e-10, rmax=32768, max_full=500, kick
         raise ShapeMismatch('A is not quadratic.')
     if A.N != b.N:
         raise ShapeMismatch('Dimension mismatch.')
+    if preconditioner not in (None, 'c', 'r'):
+        raise InvalidArguments("Invalid preconditioner.")
 
     if use_cpp and _flag_use_cpp:
         if x0 == None:
@@ -275,10 +277,8 @@ def amen_solve(A, b, nswp=22, x0=None, eps=1e-10, rmax=32768, max_full=500, kick
             prec = 0
         elif preconditioner == 'c':
             prec = 1
-        elif preconditioner == 'r':
-            prec = 2
         else:
-            raise InvalidArguments("Invalid preconditioner.")
+            prec = 2
         cores = torchttcpp.amen_solve(A.cores, b.cores, x_cores, b.N, A.R, b.R, x_R, nswp,
                                       eps, rmax, max_full, kickrank, kick2, local_iterations, resets, verbose, prec)
         return torchtt.TT(list(cores))
